@@ -281,3 +281,57 @@ func verifC05RestartNamed(w *verifWorld, before, after ltx.Pos, imgBefore, imgAf
 	}
 	verifC05Restart(w, before, after, imgBefore, imgAfter)
 }
+
+// VerifC05Recover: the process dies inside LiteFS' own checkpoint or journal
+// rollback (run at role changes and halt-lock grants); both are idempotent.
+func VerifC05Recover() {
+	ctx := context.Background()
+	k := rt.Choose("crash.at", 24)
+	if rt.Choose("what", 2) == 0 {
+		// WAL database with a committed, un-checkpointed transaction
+		w, m := verifC03Setup(2)
+		db := w.db
+		m.verifStartWAL(ctx, w, true)
+		m.verifC03Tx(ctx, w, 1+rt.Tier(), true)
+		if !m.verifC03Release(ctx, w, "c05.ckpt.setup") {
+			rt.Fail("harness: setup transaction not captured")
+		}
+		pos := db.Pos()
+		cur := w.verifReadImage()
+		img := make([][]byte, m.pageN)
+		for p := uint32(1); p <= m.pageN; p++ {
+			if d, ok := m.overlay[p]; ok {
+				img[p-1] = append([]byte{}, d...)
+			} else {
+				img[p-1] = append([]byte{}, cur[p-1]...)
+			}
+		}
+		crashed := verifC05Crashed(k, func() { must(db.Checkpoint(ctx)) })
+		if !crashed && k != 23 {
+			rt.Assume(false)
+		}
+		rt.Reach("c05.recover.checkpoint")
+		verifC05Restart(w, pos, ltx.Pos{TXID: pos.TXID + 1}, img, nil)
+		return
+	}
+	// rollback-journal database with a hot journal (SQLite transaction in flight when the role changes)
+	w, _ := verifChainN(1, 2)
+	db := w.db
+	pos := db.Pos()
+	cur := w.verifReadImage()
+	img := [][]byte{append([]byte{}, cur[0]...), append([]byte{}, cur[1]...)}
+	nonce := rt.U32("nonce")
+	j := verifJournalHeader(2, nonce, 2)
+	j = append(j, verifJournalRecord(1, img[0], nonce)...)
+	j = append(j, verifJournalRecord(2, img[1], nonce)...)
+	must(os.WriteFile(db.JournalPath(), j, 0o666))
+	mod1 := rt.Bytes("mod1", verifP)
+	verifHeaderPage(mod1, 3, false) // the in-flight transaction grew the database to 3 pages
+	must(os.WriteFile(db.DatabasePath(), verifJoin([][]byte{mod1, rt.Bytes("mod2", verifP), rt.Bytes("mod3", verifP)}), 0o666))
+	crashed := verifC05Crashed(k, func() { must(db.Recover(ctx)) })
+	if !crashed && k != 23 {
+		rt.Assume(false)
+	}
+	rt.Reach("c05.recover.rollback")
+	verifC05Restart(w, pos, ltx.Pos{TXID: pos.TXID + 1}, img, nil)
+}
